@@ -87,6 +87,7 @@ class FnSpec:
         self.props = []
         self.ret = None
         self.rules = []
+        self.prerules = []
         self.sigfix = []
         self.sig = []      # Clause
         self.loops = {}    # k -> [Clause]
@@ -167,6 +168,8 @@ def build(unit_path, repo):
                     spec.ret = aa.strip(); j += 1
                 elif base == "@rule":
                     spec.rules.append(_split_rule(aa)); j += 1
+                elif base == "@prerule":
+                    spec.prerules.append(_split_rule(aa)); j += 1
                 elif base == "@sigfix":
                     spec.sigfix.append(_split_rule("sig " + aa)[1:]); j += 1
                 elif base in ("@requires", "@ensures", "@decreases"):
@@ -213,7 +216,12 @@ def _count(u, rid, k=1):
         u.rule_counts[rid] = u.rule_counts.get(rid, 0) + k
 
 
-def _apply_rules(u, text, groups, extra, casts):
+def _apply_rules(u, text, groups, extra, casts, pre=()):
+    for rid, rx, rp in pre:
+        text, k = re.subn(rx, rp, text)
+        if k == 0:
+            raise ExtractError("function-specific rule %s /%s/ found no anchor" % (rid, rx))
+        _count(u, rid, k)
     for rid, rx, rp in RULES.expand(groups, casts):
         if callable(rx):
             text, k = rx(text)
@@ -272,14 +280,16 @@ def _extract(u, repo, d, arg, spec, groups, where):
             raise ExtractError("%s: slice end /%s/ not found" % (where, toks[4]))
         s = fs + ms.start()
         e = fs + me.end()
-        raw = "fn " + toks[5] + " {\n" + src[s:e] + "\n}"
+        pro = toks[6] if len(toks) > 6 else ""
+        epi = toks[7] if len(toks) > 7 else ""
+        raw = "fn " + toks[5] + " { " + pro + "\n" + src[s:e] + "\n" + epi + " }"
         name = re.match(r"\s*(\w+)", toks[5]).group(1)
         _count(u, "R13")
     line0 = R.line_of(src, s)
     if d == "@slice":
         line0 -= 1
     text = R.strip_comments(raw)
-    text = _apply_rules(u, text, groups, spec.rules, u.casts)
+    text = _apply_rules(u, text, groups, spec.rules, u.casts, spec.prerules)
     if d == "@struct":
         for k, l in enumerate(text.split("\n")):
             u.out.append((l, ("src", toks[0], line0 + k, name)))
